@@ -1,7 +1,7 @@
 (* C05 — Parsing honours the record framing of the message.
    The independent envelope reader is Walker.walk (names, fixed 10-byte RR header, RDLENGTH skip; no knowledge of types).
    Property theorems only. *)
-Require Import SD.Base SD.Codes SD.Name SD.RData SD.Packet SD.Walker SD.Framing.
+Require Import SD.Base SD.Codes SD.Header SD.Name SD.RData SD.Packet SD.Walker SD.Framing SD.HeaderPrefix.
 
 (* when parsing succeeds, the questions and records correspond one-to-one and in order to the entries delimited by the header
    counts and RDLENGTHs: owner, type, class, cache-flush bit and TTL are those of the entry (rr_matches / q_matches), and the
@@ -54,3 +54,12 @@ Example C05_surplus_then_next :
   | _ => False
   end.
 Proof. vm_compute. reflexivity. Qed.
+
+(* the message starts where the buffer starts: id, opcode and flags of a parsed packet are read from bytes 0..3 and from nothing
+   else (an ID that happens to equal the message length, or to look like a stream transport's length prefix, is just an ID) *)
+Theorem C05_header_is_prefix : forall d p, parse_packet d = Ok p ->
+  exists id w, be_at d 0 2 = Some id /\ be_at d 2 2 = Some w /\
+    h_id (hdr p) = id /\ h_opcode (hdr p) = h_opcode (header_of_word id w) /\ h_flags (hdr p) = h_flags (header_of_word id w) /\
+    (popt p = None -> h_rcode (hdr p) = h_rcode (header_of_word id w)).
+Proof. exact parsed_header_is_prefix. Qed.
+Print Assumptions C05_header_is_prefix.
